@@ -144,6 +144,60 @@ func exerciseC20(r *Run, s subject, maxSeq int) int {
 	return n
 }
 
+// exerciseFuncs6: the exported package-level functions that take a message to read it.
+func exerciseFuncs6(r *Run, what string, m dhcpv6.DHCPv6) int {
+	show := func(x interface{}, err error) string {
+		if d, ok := x.(dhcpv6.DHCPv6); ok && d != nil && !reflect.ValueOf(d).IsNil() {
+			return fmt.Sprintf("%x %v", safeBytes6(d), err)
+		}
+		return fmt.Sprintf("%v %v", x, err)
+	}
+	fs := []struct {
+		name string
+		f    func() string
+	}{
+		{"ExtractMAC", func() string { return show(dhcpv6.ExtractMAC(m)) }},
+		{"DecapsulateRelay", func() string { return show(dhcpv6.DecapsulateRelay(m)) }},
+		{"DecapsulateRelayIndex(0)", func() string { return show(dhcpv6.DecapsulateRelayIndex(m, 0)) }},
+		{"DecapsulateRelayIndex(-1)", func() string { return show(dhcpv6.DecapsulateRelayIndex(m, -1)) }},
+		{"GetTransactionID", func() string { return show(dhcpv6.GetTransactionID(m)) }},
+		{"OptRelayMessage(m).ToBytes", func() string { return hx(dhcpv6.OptRelayMessage(m).ToBytes()) }},
+		{"OptRelayMessage(m).String", func() string { return dhcpv6.OptRelayMessage(m).String() }},
+		{"GetMacAddressFromEUI64(peer)", func() string {
+			if rm, ok := m.(*dhcpv6.RelayMessage); ok {
+				return show(dhcpv6.GetMacAddressFromEUI64(rm.PeerAddr))
+			}
+			return ""
+		}},
+	}
+	call := func(i int) (out string, p interface{}) {
+		defer func() { p = recover() }()
+		return fs[i].f(), nil
+	}
+	enc0 := append([]byte{}, safeBytes6(m)...)
+	more0 := dumpLine(dumpMsg(m))
+	n := 0
+	order := r.Rng.Perm(len(fs))
+	for _, i := range append(order, r.Rng.Perm(len(fs))...) {
+		o1, p1 := call(i)
+		o2, p2 := call(i)
+		n += 2
+		if (p1 == nil) != (p2 == nil) || o1 != o2 {
+			r.Fail("c20-repeated-call-differs", what, fmt.Sprintf("%s returned %s (%v) then %s (%v)", fs[i].name, trunc(o1, 200), p1, trunc(o2, 200), p2))
+			return n
+		}
+		if e := safeBytes6(m); !bytes.Equal(e, enc0) {
+			r.Fail("c20-encoding-changed", what, fmt.Sprintf("after %s: encoding %s", fs[i].name, firstDiff(hx(enc0), hx(e))))
+			return n
+		}
+		if m1 := dumpLine(dumpMsg(m)); m1 != more0 {
+			r.Fail("c20-accessor-results-changed", what, fmt.Sprintf("after %s: %s", fs[i].name, trunc(firstDiff(more0, m1), 300)))
+			return n
+		}
+	}
+	return n
+}
+
 // Every subject is generated twice from the same random state and observed in both orders (see exerciseC20).
 func genC20(r *Run) {
 	seed := r.Rng.Int63()
@@ -282,6 +336,41 @@ func genC20pass(r *Run) int {
 		case *dhcpv6.RelayMessage:
 			evals += exerciseC20(r, subject{"RelayOptions " + trunc(hx(w), 120), reflect.ValueOf(x.Options), m.ToBytes, nil}, maxSeq)
 		}
+	}
+	// the exported functions that read a message handed to them (ExtractMAC, DecapsulateRelay ..., GetTransactionID,
+	// wrapping it in a relay option) are read-only calls like the methods: on every message above's shape, and on
+	// relayed messages whose peer address is the EUI-64 address of the client (fe80::xxxx:xxff:fexx:xxxx, what relays
+	// of real clients send), with and without a client link-layer address option, built and decoded
+	for i := 0; i < r.N(200, 3000); i++ {
+		var m dhcpv6.DHCPv6
+		var w []byte
+		if i%3 == 0 {
+			m, w = r.genMsg(r.Pick(1, 2), r.Pick(2, 5))
+		} else {
+			inner, _ := r.genMsg(1, 2)
+			cur := inner
+			for d := 1 + r.Rng.Intn(3); d > 0; d-- {
+				peer := net.IP(r.Bytes(16))
+				if r.Rng.Intn(4) != 0 {
+					peer[0], peer[1], peer[11], peer[12] = 0xfe, 0x80, 0xff, 0xfe
+				}
+				rm, err := dhcpv6.EncapsulateRelay(cur, dhcpv6.MessageTypeRelayForward, net.IP(r.Bytes(16)), peer)
+				if err != nil {
+					break
+				}
+				if r.Rng.Intn(3) == 0 {
+					rm.AddOption(dhcpv6.OptClientLinkLayerAddress(iana.HWTypeEthernet, net.HardwareAddr(r.Bytes(6))))
+				}
+				cur = rm
+			}
+			m, w = cur, cur.ToBytes()
+		}
+		if i%2 == 0 {
+			if d, err := dhcpv6.FromBytes(w); err == nil {
+				m = d
+			}
+		}
+		evals += exerciseFuncs6(r, "DHCPv6 "+trunc(hx(w), 300), m)
 	}
 	// messages that repeat an option the accessors expect once (two or three requested-option lists with
 	// different codes, several client ids, IA_NAs, status codes ...): accessors that merge or pick must not write back
